@@ -56,7 +56,7 @@ def evalCase (lines : List String) : String × Bool × Bool :=
       let st := replay caseLines link leak fin
       if st.bad.isNone then some (name, st) else firstOk rest
   let variants : List (String × Cfg × Bool × Bool) :=
-    [("faithful", Cfg.faithful, false, false), ("fixed:all", Cfg.fixed, true, true), ("fixed:rand", Cfg.fixed, false, false),
+    [("fixed:all", Cfg.fixed, true, true), ("faithful", Cfg.faithful, false, false), ("fixed:rand", Cfg.fixed, false, false),
      ("fixed:leak+fin", Cfg.faithful, true, true), ("fixed:rand+leak", Cfg.fixed, true, false), ("fixed:rand+fin", Cfg.fixed, false, true),
      ("fixed:leak", Cfg.faithful, true, false), ("fixed:fin", Cfg.faithful, false, true)]
   let (kOk, vname, cov, kline, kdetail) :=
